@@ -141,6 +141,12 @@ def recipes(ctx):
                 for foot in (None, 0):
                     out.append(('vmdk', dict(ctype=ci, lines=(), base_extent=True, desc_num=dn,
                                              fill=fl, footer=foot)))
+    # stale bytes behind the NUL that terminates the descriptor text (they are not descriptor)
+    for sl in range(4):
+        for ci in (0, 3, 6):
+            for foot in (None, 0):
+                out.append(('vmdk', dict(ctype=ci, lines=(), base_extent=True, desc_num=4, slack=sl,
+                                         footer=foot)))
     # ---- MBR / GPT -----------------------------------------------------------------
     # every value of every byte of a partition entry (protective entry alone; Linux entry alone)
     for base in ('GPT', 'LINUX'):
@@ -194,6 +200,9 @@ def build(kind, kw, seed):
             foot = 0
             over, contradicts = FOOTER_REL[kw['footer_rel']]
             over = {k: {'desc_num': desc_num, 'desc_sec': desc_sec}[k] + int(v) for k, v in over.items()}
+        if 'slack' in kw:
+            desc = desc + b'\x00' + [b'ddb.stale = "x"\nRW 16 FLAT "/etc/passwd" 0\n', b'caf\xc3\xa9 \xff\n',
+                                     b'\xff', b'\x00\x00\x80hello world\n'][kw['slack']]
         fill_class = None
         if 'fill' in kw:
             last, fill_class = FILL_LASTS[kw['fill']]
